@@ -136,6 +136,28 @@ pub fn run(ctx: &'static Ctx) {
     }
     ctx.engine("E3.malformed", json!({"strings": bad, "all_must_panic": true}));
 
+    // ---- every string over {name character, dot} up to 14 characters, rooted or not: well-formed iff it is
+    // 4-character segments joined by single dots; well-formed ones must encode, all others must be refused
+    let shapes = AtomicU64::new(0);
+    (0..=14usize).into_par_iter().for_each(|len| {
+        for mask in 0u32..(1 << len) {
+            let body: String = (0..len).map(|i| if mask >> i & 1 == 1 { '.' } else { (b'A' + (i % 26) as u8) as char }).collect();
+            let well = !body.is_empty() && body.split('.').all(|p| p.len() == 4);
+            for rooted in [false, true] {
+                let s = if rooted { format!("\\{}", body) } else { body.clone() };
+                shapes.fetch_add(1, Ordering::Relaxed);
+                if well {
+                    let segs: Vec<[u8; 4]> = body.split('.').map(|p| { let b = p.as_bytes(); [b[0], b[1], b[2], b[3]] }).collect();
+                    check_path(ctx, rooted, &segs, "dot-placement enumeration");
+                } else {
+                    check_malformed(ctx, &s);
+                }
+            }
+        }
+    });
+    ctx.st(shapes.load(Ordering::Relaxed));
+    ctx.engine("E3.dot-placements", json!({"strings": shapes.load(Ordering::Relaxed), "what": "all 2^(len+1)-per-length strings over {name character, '.'} for len 0..=14, rooted and relative"}));
+
     // ---- the same encoder under every named object
     let mut named = 0u64;
     for c in 1..=3usize {
